@@ -1,5 +1,5 @@
 (* C08: concrete witnesses (evaluated inside Coq) *)
-From Boltons Require Import Lib.Prelude Lib.C08_Py Spec.C08_Spec Model.C08_Model Proofs.C08_Tree Proofs.C08_Paths.
+From Boltons Require Import Lib.Prelude Lib.C08_Py Spec.C08_Spec Model.C08_Model Proofs.C08_Tree Proofs.C08_Paths Proofs.C08_Copy.
 
 (* {'k': [4, (5, 6)], 'j': {7}} *)
 Definition ex_tree : obj :=
@@ -29,6 +29,13 @@ Proof.
   split.
   - cbn. repeat split; try reflexivity; repeat constructor; cbn; intuition discriminate.
   - eexists. split; [vm_compute; reflexivity|]. split; [cbn; tauto|reflexivity].
+Qed.
+
+Lemma ex_copy_ok :
+  NoDup (ids ex_cyclic) /\ wf_keys ex_cyclic /\ no_sets ex_cyclic /\ imm_backref [] ex_cyclic = false.
+Proof.
+  split; [cbn; repeat constructor; cbn; intuition discriminate|].
+  split; [exact (proj1 ex_paths_ok)|]. split; [cbn; tauto|reflexivity].
 Qed.
 
 (* t = (l,), l = [t] *)
